@@ -49,6 +49,11 @@ func IMMSites() []Site {
 		{Tag: "T2 incdec x2.M++", Stmt: "x2.M++", Subj: SubjT2, Codes: i3},
 		{Tag: "T2 mut assign x2.F", Stmt: "x2.F = 1", Subj: SubjT2Mut, Codes: i1, Core: true},
 		{Tag: "T2 mut compound x2.F+=", Stmt: "x2.F += 1", Subj: SubjT2Mut, Codes: i2},
+		// a second imported package with the same type names and the opposite annotations
+		{Tag: "e.T (unannotated namesake) assign", Stmt: "(&e.T{}).F = 1", Subj: SubjSilent, Core: true, OnlyInU: true},
+		{Tag: "e.T (unannotated namesake) index", Stmt: "(&e.T{}).Xs[0] = 1", Subj: SubjSilent, OnlyInU: true},
+		{Tag: "e.P (annotated namesake of the twin) assign", Stmt: "e.NewT().F = 1", Subj: SubjAlways, Codes: i1, Core: true, OnlyInU: true},
+		{Tag: "e.P (annotated namesake of the twin) incdec", Stmt: "e.NewT().F++", Subj: SubjAlways, Codes: i3, OnlyInU: true},
 		// the importing package's own same-named type
 		{Tag: "own-T assign (&T{}).F", Stmt: "(&T{}).F = 1", Subj: SubjOwnT, Codes: i1, Core: true, OnlyInU: true},
 		// undocumented type spec that follows an annotated spec inside one type ( ... ) group
@@ -109,6 +114,11 @@ func CTORSites() []Site {
 		{Tag: "T2 lit T2{}", Stmt: "_ = {T2}{}", Subj: SubjT2, Codes: c1, Core: true, PkgLevel: "var $g = {T2}{}"},
 		{Tag: "T2 new(T2)", Stmt: "_ = new({T2})", Subj: SubjT2, Codes: c2},
 		{Tag: "T2 var v T2", Stmt: "var $v {T2}; _ = $v", Subj: SubjT2, Codes: c3},
+		// a second imported package with the same type names and the opposite annotations
+		{Tag: "e.T (unannotated namesake) lit", Stmt: "_ = e.T{}", Subj: SubjSilent, Core: true, OnlyInU: true},
+		{Tag: "e.T (unannotated namesake) new/var", Stmt: "var $v e.T; _, _ = $v, new(e.T)", Subj: SubjSilent, OnlyInU: true},
+		{Tag: "e.P (annotated namesake of the twin) lit", Stmt: "_ = e.P{}", Subj: SubjAlways, Codes: c1, Core: true, OnlyInU: true},
+		{Tag: "e.P (annotated namesake of the twin) var", Stmt: "var $v e.P; _ = $v", Subj: SubjAlways, Codes: c3, OnlyInU: true},
 		// the importing package's own same-named type
 		{Tag: "own-T lit T{}", Stmt: "_ = T{}", Subj: SubjOwnT, Codes: c1, Core: true, OnlyInU: true},
 		{Tag: "own-T var v T", Stmt: "var $v T; _ = $v", Subj: SubjOwnT, Codes: c3, OnlyInU: true},
@@ -161,6 +171,10 @@ func Expect(fam *Family, st *Site, encl EnclKind, file int, inU bool, m Mix) []s
 	}
 	if st.Subj == SubjTwin || st.Subj == SubjSilent {
 		return nil
+	}
+	if st.Subj == SubjAlways {
+		// e.P: annotated independently of the mix; u's function NewT is not e's constructor
+		return st.Codes
 	}
 	if st.Subj == SubjOwnT {
 		// annotated independently of the mix; exempt only inside u's own NewT / Alt
